@@ -393,6 +393,7 @@ class ScopeGen(ScopeFn):
     def __init__(self, compiler):
         super().__init__(compiler)
         self.iterators = set()
+        self.outside = []
         self.assignments = []
         self.exposing_assignments = False
 
@@ -432,11 +433,14 @@ class ScopeGen(ScopeFn):
             self.seen.append(node)
         return node.node
 
-    def iterator(self, target):
+    def iterator(self, target, outside=()):
         """
         Declare an iteration variable name for this scope; as in Python, the
-        iteration variable(s) cannot be reassigned.
+        iteration variable(s) cannot be reassigned. `outside` lists the
+        references made by the first iterable, which is evaluated in the
+        enclosing scope, where a name of `target` is another variable.
         """
+        self.outside.extend(outside)
         self.iterators.update(
             name.id for name in ast.walk(target) if isinstance(name, ast.Name)
         )
@@ -445,4 +449,9 @@ class ScopeGen(ScopeFn):
         self.assignments = [
             node for node in self.assignments if node.name not in self.iterators
         ]
-        self.seen = [node for node in self.seen if node.name not in self.iterators]
+        self.seen = [
+            node
+            for node in self.seen
+            if node.name not in self.iterators
+            or any(node is o for o in self.outside)
+        ]
